@@ -140,8 +140,8 @@ Auth ==                                                     \* confighttp.authIn
        THEN Answer(HttpError(401)) /\ UNCHANGED <<req, body, srv, cls>>
        ELSE pc' = "rawlimit" /\ UNCHANGED <<req, body, srv, resp, cls>>
 
-RawLimit ==                                                 \* maxRequestBodySizeInterceptor
-    /\ pc = "rawlimit"
+RawLimit ==                                                 \* maxRequestBodySizeInterceptor: unconditional, whatever
+    /\ pc = "rawlimit"                                       \* length the request declares (req.framing is not read)
     /\ body' = Capped(body, req.max)
     /\ pc' = "decode"
     /\ UNCHANGED <<req, srv, resp, cls>>
